@@ -396,6 +396,7 @@ inline void apply(World &w, const Op &op) {
         // C18 part: capacity == size, or N and inline when the elements fit there
         long want = (kSmall && sz <= N) ? N : sz;
         if ((long)VV.capacity() != want) vf::fail("C18,C07", "shrink_to_fit: capacity %ld, expected %ld", (long)VV.capacity(), want);
+        if (kSmall && sz <= N && !is_inline(VV)) vf::fail("C18,C05", "shrink_to_fit: the elements fit the inline capacity but stay on the heap");
       }
     } break;
     case APPEND_N: {
